@@ -286,6 +286,33 @@ pub fn cases_cmd(args: &[String]) {
                 }
             }
         }
+        "cancelrender" => {
+            // a cancellation request that arrives only AFTER solve has returned (sticky from
+            // the first poll the solve itself does not make): whatever conflict rendering
+            // asks of the provider then must not make it panic or hang (C04)
+            for prof in rest.split(',') {
+                let g = GenParams::profile(prof);
+                let mut rng = Rng::new(seed ^ hash(prof) ^ 0xCA7C33);
+                for _ in 0..n {
+                    let mut r = rng.fork();
+                    let (u, p) = gen_universe(&mut r, &g);
+                    let cfg0 = Cfg { mode: "sync".into(), render: true, ..base_cfg.clone() };
+                    let dry = Case {
+                        id: 0,
+                        profile: "dry".into(),
+                        u: u.clone(),
+                        ps: vec![p.clone()],
+                        cfg: Cfg { whitebox: false, render: false, ..cfg0.clone() },
+                    };
+                    let o = std::panic::catch_unwind(|| crate::run::run_case(&dry));
+                    let Ok(o) = o else { continue };
+                    // polls made by solve itself: those before it returned (`verdict`)
+                    let polls = o.lines.iter().take_while(|l| l["ev"] != "verdict").filter(|l| l["ev"] == "poll").count() as u32;
+                    let cfg = Cfg { cancel_at: polls + 1, cancel_sticky: true, ..cfg0.clone() };
+                    emit(&mut out, &Case { id: id(), profile: format!("{prof}+cancelrender"), u: u.clone(), ps: vec![p.clone()], cfg });
+                }
+            }
+        }
         "widealt" => {
             let ns: Vec<u32> = rest.split(',').filter(|s| !s.is_empty()).map(|s| s.parse().unwrap()).collect();
             let mut rng = Rng::new(seed ^ 0xA17);
